@@ -44,6 +44,9 @@ WHAT IS ENUMERATED
     same / in another directory, as a relative path (cwd inside the sandbox), each ordinary
     and faulted; settings file names of 245 / 250 / 254 / 255 bytes (NAME_MAX boundary: the temp
     name does not fit — a save() that raises and leaves the old file intact is fine);
+  * KIND OF THE EXISTING TARGET (what os.stat reports and a save path could branch on): a file
+    with a second hard link, a read-only file, a file reached through a directory symlink, a
+    very large file — each ordinary (and one pair faulted), every crash point;
   * INITIAL DIRECTORY: every distinct crash state of a first save() (its leftover temp files
     and whichever content the target then has) is the initial directory of a second save()
     of shorter and of longer content; old-or-new is demanded of the second save's crash
@@ -89,6 +92,7 @@ TRUSTED = ["the recording wrappers and the step-by-step crash-state materialiser
 
 UNI = "\U0001F34Fé中"
 PATH_KINDS = ["plain", "nested", "symlink-same", "symlink-other", "relative", "relative-nested"]
+TARGET_KINDS = ["hardlink", "readonly", "dir-symlink"]      # kind of the EXISTING target (what os.stat reports)
 NAME_KINDS = ["name-245", "name-250", "name-254", "name-255"]      # file-name length in bytes, at the NAME_MAX boundary
 
 
@@ -119,6 +123,14 @@ def make_layout(root, kind, target_bytes, extras):
     elif kind == "relative":
         cwd, given = live, "pyatv.conf"
         abs_ = real = os.path.join(live, "pyatv.conf")
+    elif kind in ("hardlink", "readonly"):
+        given = abs_ = real = os.path.join(live, "pyatv.conf")
+    elif kind == "dir-symlink":
+        # the settings file is reached through a symbolic link to its directory
+        os.makedirs(os.path.join(live, "realdir"))
+        os.symlink("realdir", os.path.join(live, "cfg"))
+        given = abs_ = os.path.join(live, "cfg", "pyatv.conf")
+        real = os.path.join(live, "realdir", "pyatv.conf")
     elif kind.startswith("name-"):
         # a settings file name at the NAME_MAX boundary (bytes): <name>.tmp<pid> no longer fits
         n = int(kind.split("-")[1])
@@ -132,6 +144,12 @@ def make_layout(root, kind, target_bytes, extras):
     if target_bytes is not None:
         with open(real, "wb") as f:
             f.write(target_bytes)
+        # what os.stat reports about the existing target and a save path could branch on
+        if kind == "hardlink":
+            os.makedirs(os.path.join(live, "backup"))
+            os.link(real, os.path.join(live, "backup", "pyatv.conf.link"))      # st_nlink == 2
+        elif kind == "readonly":
+            os.chmod(real, 0o444)
     for rel, data in (extras or {}).items():
         p = os.path.join(root, rel)
         if os.path.lexists(p):
@@ -1331,6 +1349,28 @@ def _run(ctx, only, loop, jobs, t0):
                     sibling_savers(ctx, loop, by_label[label], nb)
                 except Exception as e:
                     ctx.disagree({"pair": label, "siblings": True}, "harness step raised %s: %s" % (type(e).__name__, e), "n/a", where="sibling_savers")
+            for kind in TARGET_KINDS:
+                for label in ["grow", "shrink"]:
+                    _guard(ctx, t0)
+                    try:
+                        (with_faults if label == "grow" else run_scenario)(ctx, loop, dict(by_label[label], kind=kind), False, jobs)
+                    except _Enough:
+                        raise
+                    except Exception as e:
+                        ctx.disagree({"pair": label, "kind": kind}, "harness step raised %s: %s" % (type(e).__name__, e), "n/a", where="run_scenario")
+            try:
+                # a very large existing file (hundreds of devices) replaced by a small one and vice versa
+                gen2 = tempfile.mkdtemp(prefix="verif-c15-gen-", dir="/tmp")
+                large = [_dev(i, cred="L" * 50 + str(i), pw="pw%d" % i, name="Room %d" % i) for i in range(ctx.scale(150, 400))]
+                lb = old_bytes_of(loop, gen2, large)
+                shutil.rmtree(gen2, ignore_errors=True)
+                run_scenario(ctx, loop, {"pair": "large->small", "kind": "plain", "old_hex": lb.hex(), "extras": {}, "new": [_dev(0, cred="k")], "mode": None}, False, jobs)
+                if ctx.thorough:
+                    run_scenario(ctx, loop, {"pair": "small->large", "kind": "plain", "old_hex": by_label["grow"]["old_hex"], "extras": {}, "new": large, "mode": None}, False, jobs)
+            except _Enough:
+                raise
+            except Exception as e:
+                ctx.disagree({"pair": "large"}, "harness step raised %s: %s" % (type(e).__name__, e), "n/a", where="run_scenario")
             for kind in NAME_KINDS:
                 for label in ["grow", "shrink"]:
                     try:
